@@ -552,6 +552,10 @@ CONFTEST_18 = "import pytest\n\n" + "".join(
 TP_18 = 'import pytest\n\n\n@pytest.fixture\ndef tp_fx():\n    return 1\n\n\n@pytest.fixture(scope="session")\ndef tp_ses():\n    return 2\n'
 
 
+WP_18 = 'import pytest\n\n\n@pytest.fixture\ndef wp_fx():\n    return 1\n\n\n@pytest.fixture\ndef tp_fx():\n    return "workspace plugin"\n'
+SIB_18 = 'import pytest\n\n\n@pytest.fixture(scope="module")\ndef c_mod():\n    return "overridden next door"\n\n\ndef test_sib(c_mod, ):\n    pass\n'
+
+
 def c18_doc(c):
     """-> (text, cursor line (0-based), cursor col)"""
     role, kind, scope = c["role"], c["kind"], c["scope"]
@@ -650,13 +654,32 @@ def check_c18(tier):
         open(os.path.join(sp, "tp", "__init__.py"), "w").close()
         with open(os.path.join(sp, "tp", "plugin.py"), "w") as fh:
             fh.write(TP_18)
+        # a workspace plugin: editable install whose source lives inside the workspace
+        os.makedirs(os.path.join(root, "plugsrc"), exist_ok=True)
+        with open(os.path.join(root, "plugsrc", "wplug.py"), "w") as fh:
+            fh.write(WP_18)
+        di = os.path.join(sp, "wplug-1.0.dist-info")
+        os.makedirs(di, exist_ok=True)
+        with open(os.path.join(di, "entry_points.txt"), "w") as fh:
+            fh.write("[pytest11]\nwplug = wplug\n")
+        with open(os.path.join(di, "direct_url.json"), "w") as fh:
+            json.dump({"url": "file://" + os.path.join(root, "plugsrc"), "dir_info": {"editable": True}}, fh)
+        with open(os.path.join(sp, "__editable__.wplug-1.0.pth"), "w") as fh:
+            fh.write(os.path.join(root, "plugsrc") + "\n")
         with open(os.path.join(root, "conftest.py"), "w") as fh:
             fh.write(CONFTEST_18)
+        # a sibling document in the same directory that OVERRIDES a conftest fixture locally
+        with open(os.path.join(root, "test_sib.py"), "w") as fh:
+            fh.write(SIB_18)
         text, line, col = c18_doc(c)
         tpath = os.path.join(root, "test_e.py")
         srv = lsp.Server()
         try:
             srv.initialize(root)
+            if n % 2 == 0:
+                # the sibling is opened and asked first (its per-file view is computed before the edited document's)
+                srv.did_open(os.path.join(root, "test_sib.py"), SIB_18)
+                srv.pos_request("textDocument/completion", os.path.join(root, "test_sib.py"), 8, 20)
             if c["role"].startswith("inc_"):
                 # incomplete forms arise while typing: the document was valid a moment ago
                 valid_c = dict(c, role="def_line")
@@ -686,7 +709,7 @@ def check_c18(tier):
             V.violation(dict(ex, error=r["error"]), "server died or did not answer a completion request")
             continue
         fixture_names = set(c["expect"]["order"])
-        labels = [i["label"] for i in r["items"] if i["label"] in fixture_names or i["label"].startswith(("c_", "tp_", "local_"))]
+        labels = [i["label"] for i in r["items"] if i["label"] in fixture_names or i["label"].startswith(("c_", "tp_", "wp_", "local_"))]
         want = set(c["expect"]["offered"] or [])
         got = set(labels)
         e2 = dict(ex, offered=sorted(got), expected=sorted(want), context=c["expect"]["ctx"])
